@@ -19,6 +19,9 @@ def model_op(o, node):
         kind = o["line"].split(" ")[0]
     if kind in NOOPS:
         return {"node": node, "op": "noop", "k": "", "v": "", "ver": 0, "n": 0}
+    if kind == "tick" and o.get("tick"):
+        # the declutter timer of that node runs its queued snapshots
+        return {"node": o["tick"], "op": "tick", "k": "", "v": "", "ver": 0, "n": 0}
     # a user record / a permission list is an unversioned write of a `$$' key (applied locally, forwarded by a
     # secondary, re-emitted as `replicate <db> <key> -1 <value>')
     if kind == "snapshot" and not op.get("reclaim") and op.get("names") == ["d"]:
@@ -62,7 +65,7 @@ def conv_state(st):
     for n, v in st["nodes"].items():
         keys = v.get("data", {}).get("d", {}).get("keys", {})
         nodes[n] = {"data": {k: [x[0], x[1], x[2]] for k, x in keys.items() if k not in ("$connections", "$$token")},
-                    "replq": v["replq"], "pending": len(v["pend"])}
+                    "replq": v["replq"], "pending": len(v["pend"]), "snapq": "d" in [x[0] for x in v.get("snapq", [])]}
     links = {}
     for lk in st["links"]:
         links["%s>%s" % (lk["from"], lk["to"])] = {
